@@ -381,6 +381,9 @@ type Scenario struct {
 	ClockStep time.Duration
 	// FaultTableRemoves: removals of table files can take the injected fault too
 	FaultTableRemoves bool
+	// CoarseMtime: every FileInfo the code obtains carries a modification time truncated
+	// to this granularity (vos.MtimeGranularity) for the duration of the scenario
+	CoarseMtime time.Duration
 	// ClockAhead: see vos.Sched.ClockAhead (0 = the virtual clock runs before all file times)
 	ClockAhead time.Duration
 }
@@ -421,6 +424,8 @@ func (l *Lab) Run(sc *Scenario, dirName string) *Result {
 	s.HookReads = sc.HookReads
 	s.ClockStep = sc.ClockStep
 	s.ClockAhead = sc.ClockAhead
+	vos.MtimeGranularity = sc.CoarseMtime
+	defer func() { vos.MtimeGranularity = 0 }()
 	s.FaultTableRemoves = sc.FaultTableRemoves
 	s.PreOp = w.PreOp
 	s.PostOp = w.PostOp
